@@ -4,7 +4,7 @@ from core import Corr, Fail, REPO
 from props import waterlib
 from props.waterlib import fl, fls, b
 
-PROP_FILES = ["Prop_C09", "Prop_C09b", "Prop_C09c"]
+PROP_FILES = ["Prop_C09", "Prop_C09b", "Prop_C09c", "Prop_C09d"]
 # Coq-Interval (lg_bound in CropNProofs) is taken as compiled by coqchk: re-checking its stack exceeds 50 minutes
 COQCHK_ADMIT = ["Interval.Tactic"]
 RULE = ("PhytoOut transitions (state before/after the call in sub-step 1) of traced in-process runs of generated crop "
